@@ -29,19 +29,41 @@ MinI(a, b) == IF a <= b THEN a ELSE b
 (* ---- the statement ---- *)
 OffsetAt(zt, u) == zt[CHOOSE i \in 1..Len(zt) : zt[i].from <= u /\ u < zt[i].to].off
 DayOK(S, rule, d, wd) == IF rule = "and" THEN d \in S[4] /\ wd \in S[6] ELSE d \in S[4] \/ wd \in S[6]
-MatchesWall(S, rule, w) ==
-  LET tod == w % Day IN
+(* Instants and wall-clock readings are seconds relative to the run's epoch  *)
+(* (00:00 UTC on 1 January of its epoch year); ed is the epoch's day number  *)
+(* on the absolute calendar (days since 2000-01-01), so leap years stay      *)
+(* absolute while the seconds stay small (TLC integers are 32 bit).          *)
+MatchesWall(S, rule, ed, w) ==
+  LET tod == w % Day
+      D == ed + w \div Day
+  IN
   /\ (tod % 60) \in S[1]
   /\ ((tod \div 60) % 60) \in S[2]
   /\ (tod \div 3600) \in S[3]
-  /\ LET c == Civil(w \div Day) IN c.m \in S[5] /\ DayOK(S, rule, c.d, DayOfWeek(w \div Day))
-Matches(S, rule, zt, u) == MatchesWall(S, rule, u + OffsetAt(zt, u))
-BruteNext(S, rule, zt, t, limit) ==
-  LET M == {u \in (t + 1)..limit : Matches(S, rule, zt, u)} IN IF M = {} THEN None ELSE MinOf(M)
+  /\ LET c == Civil(D) IN c.m \in S[5] /\ DayOK(S, rule, c.d, DayOfWeek(D))
+Matches(S, rule, ed, zt, u) == MatchesWall(S, rule, ed, u + OffsetAt(zt, u))
+BruteNext(S, rule, ed, zt, t, limit) ==
+  LET M == {u \in (t + 1)..limit : Matches(S, rule, ed, zt, u)} IN IF M = {} THEN None ELSE MinOf(M)
+
+(* the coarsest field a wall-clock reading violates ("" = it matches) *)
+Violated(S, rule, ed, w) ==
+  LET tod == w % Day
+      D == ed + w \div Day
+      c == Civil(D)
+  IN
+  IF c.m \notin S[5] THEN "month"
+  ELSE IF ~DayOK(S, rule, c.d, DayOfWeek(D)) THEN "dom-dow"
+  ELSE IF (tod \div 3600) \notin S[3] THEN "hour"
+  ELSE IF ((tod \div 60) % 60) \notin S[2] THEN "minute"
+  ELSE IF (tod % 60) \notin S[1] THEN "second"
+  ELSE ""
 
 (* wall-clock reading of an instant, for cross-checking the calendar against Go's *)
-WallOf(zt, u) == LET w == u + OffsetAt(zt, u)  c == Civil(w \div Day)  tod == w % Day
-                 IN <<c.y, c.m, c.d, tod \div 3600, (tod \div 60) % 60, tod % 60, DayOfWeek(w \div Day)>>
+WallOf(ed, zt, u) == LET w == u + OffsetAt(zt, u)
+                         D == ed + w \div Day
+                         c == Civil(D)
+                         tod == w % Day
+                     IN <<c.y, c.m, c.d, tod \div 3600, (tod \div 60) % 60, tod % 60, DayOfWeek(D)>>
 
 (* ---- the same, computed per constant-offset interval ---- *)
 LeastGE(X, x) == IF \E v \in X : v >= x THEN MinOf({v \in X : v >= x}) ELSE None
@@ -56,31 +78,37 @@ FirstTOD(S, lb) ==
      ELSE IF c # None THEN c * 3600 + MinOf(S[2]) * 60 + MinOf(S[1])
      ELSE None
 
-(* earliest matching wall-clock second w with wa <= w <= wb, scanning days from D *)
-RECURSIVE ScanDays(_, _, _, _, _)
-ScanDays(S, rule, D, wa, wb) ==
+(* earliest matching wall-clock second w with wa <= w <= wb, scanning days from D (relative to the epoch) *)
+RECURSIVE ScanDays(_, _, _, _, _, _)
+ScanDays(S, rule, ed, D, wa, wb) ==
   IF D * Day > wb THEN None
-  ELSE LET c == Civil(D) IN
-       IF c.m \notin S[5] THEN ScanDays(S, rule, FirstOfNextMonth(c.y, c.m), wa, wb)
-       ELSE IF ~DayOK(S, rule, c.d, DayOfWeek(D)) THEN ScanDays(S, rule, D + 1, wa, wb)
+  ELSE LET c == Civil(ed + D) IN
+       IF c.m \notin S[5] THEN ScanDays(S, rule, ed, FirstOfNextMonth(c.y, c.m) - ed, wa, wb)
+       ELSE IF ~DayOK(S, rule, c.d, DayOfWeek(ed + D)) THEN ScanDays(S, rule, ed, D + 1, wa, wb)
        ELSE LET tod == FirstTOD(S, IF D * Day < wa THEN wa - D * Day ELSE 0) IN
             IF tod # None /\ D * Day + tod <= wb THEN D * Day + tod
-            ELSE ScanDays(S, rule, D + 1, wa, wb)
+            ELSE ScanDays(S, rule, ed, D + 1, wa, wb)
 
 (* earliest matching instant u with lo <= u <= limit, scanning intervals from i *)
-RECURSIVE ScanZones(_, _, _, _, _, _)
-ScanZones(S, rule, zt, i, lo, limit) ==
+RECURSIVE ScanZones(_, _, _, _, _, _, _)
+ScanZones(S, rule, ed, zt, i, lo, limit) ==
   IF i > Len(zt) THEN None
   ELSE IF zt[i].from > limit THEN None
-  ELSE IF zt[i].to <= lo THEN ScanZones(S, rule, zt, i + 1, lo, limit)
+  ELSE IF zt[i].to <= lo THEN ScanZones(S, rule, ed, zt, i + 1, lo, limit)
   ELSE LET off == zt[i].off
            wa == MaxI(lo, zt[i].from) + off
            wb == MinI(limit, zt[i].to - 1) + off
-           w == ScanDays(S, rule, wa \div Day, wa, wb)
-       IN IF w # None THEN w - off ELSE ScanZones(S, rule, zt, i + 1, lo, limit)
+           w == ScanDays(S, rule, ed, wa \div Day, wa, wb)
+       IN IF w # None THEN w - off ELSE ScanZones(S, rule, ed, zt, i + 1, lo, limit)
 
 (* the earliest matching instant in (t, limit], or None *)
-NextUpTo(S, rule, zt, t, limit) == IF \A f \in 1..6 : S[f] # {} THEN ScanZones(S, rule, zt, 1, t + 1, limit) ELSE None
+NextUpTo(S, rule, ed, zt, t, limit) == IF \A f \in 1..6 : S[f] # {} THEN ScanZones(S, rule, ed, zt, 1, t + 1, limit) ELSE None
 
-FiveYears == 1825 * Day   \* anything this close must be found; beyond it the zero time is also acceptable
+(* "within five years": the same calendar date and time of day five years on (29 February -> 28 February),  *)
+(* read in UTC, minus one day of slack for the zone offset.  A match up to here must be returned; if the   *)
+(* first match is later, it or the zero time is acceptable.                                                *)
+FiveYearsOn(ed, t) == LET c == Civil(ed + t \div Day)
+                          d == MinI(c.d, MonthLen(c.y + 5, c.m))
+                      IN (DaysFromCivil(c.y + 5, c.m, d) - ed) * Day + (t % Day)
+MustFindBy(ed, t) == FiveYearsOn(ed, t) - Day
 =============================================================================
